@@ -66,6 +66,16 @@ def install(M):
         opt + "replace": X.opt_replace,
         "std::iter::Iterator::take": X.it_take,
         "std::iter::Iterator::zip": X.it_zip,
+        "std::iter::Iterator::for_each": X.it_for_each,
+        "std::ops::RangeInclusive::<Idx>::new": X.range_inclusive_new,
+        "std::ops::RangeInclusive::<Idx>::contains": X.range_contains,
+        "std::ops::Range::<Idx>::contains": X.range_contains,
+        "std::ops::RangeInclusive::<Idx>::is_empty": X.range_is_empty,
+        "std::ops::Range::<Idx>::is_empty": X.range_is_empty,
+        "std::mem::take": X.mem_take,
+        "std::mem::replace": X.mem_replace,
+        "core::slice::<impl [T]>::split_first_mut": lambda e, st, a: X.sl_split_first(e, st, a, mutable=True),
+        "core::slice::<impl [T]>::split_last_mut": lambda e, st, a: X.sl_split_last(e, st, a, mutable=True),
         "core::slice::<impl [T]>::iter_mut": X.sl_iter_mut,
         "core::str::<impl str>::bytes": X.str_bytes,
         "std::iter::Iterator::take_while": X.it_take_while,
@@ -647,6 +657,74 @@ class Ext:
             out.append((s, "val", IterV(("zip", ia.seq, ia.pos, ib.seq, ib.pos, rb))))
         return out
 
+    def it_for_each(self, e, st, a):
+        ety = None
+        if isinstance(a[1], FnV) and a[1].fn in self.I.F.bodies:
+            ps = self.I.F.bodies[a[1].fn]["params"]
+            if len(ps) >= 2 and ps[1].get("pat"):
+                ety = ps[1]["pat"].get("t")
+
+        def step(s, acc, x):
+            return [(s2, k, (UNIT if k == "val" else v)) for s2, k, v in self.I.apply_fn(s, a[1], [x], e)]
+
+        r = self.I.loops.py_for(e, st, a[0], UNIT, step, elem_ty=ety, closures=[a[1]])
+        if r is None:
+            return None
+        return [(s, k, (UNIT if k == "val" else v)) for s, k, v, _ in r]
+
+    def range_inclusive_new(self, e, st, a):
+        return [(st, "val", StructV("std::ops::RangeInclusive", "RangeInclusive", {"start": a[0], "end": a[1]}))]
+
+    def _range_bounds(self, st, r):
+        if isinstance(r, RefV):
+            r = self.I.read_loc(st, r.key, r.path)
+        if not (isinstance(r, StructV) and r.adt in ("std::ops::Range", "std::ops::RangeInclusive")):
+            return None
+        lo, hi = r.fields.get("start"), r.fields.get("end")
+        if not (isinstance(lo, IntV) and isinstance(hi, IntV)):
+            return None
+        return lo.l, hi.l, r.adt.endswith("RangeInclusive")
+
+    def range_contains(self, e, st, a):
+        b = self._range_bounds(st, a[0])
+        x = self._deref_int(st, a[1])
+        if b is None or x is None:
+            return None
+        lo, hi, incl = b
+        return [(st, "val", BoolV(f_and(flit(ge(x.l, lo)), flit(le(x.l, hi)) if incl else flit(lt(x.l, hi)))))]
+
+    def range_is_empty(self, e, st, a):
+        b = self._range_bounds(st, a[0])
+        if b is None:
+            return None
+        lo, hi, incl = b
+        return [(st, "val", BoolV(flit(gt(lo, hi)) if incl else flit(ge(lo, hi))))]
+
+    def mem_take(self, e, st, a):
+        r = a[0]
+        if not isinstance(r, RefV):
+            return None
+        cur = self.I.read_loc(st, r.key, r.path)
+        ga = e.get("gargs") or []
+        dflt = self.M.default_of(st, ga[0]) if ga else None
+        if dflt is None or isinstance(dflt, Opaque):
+            if isinstance(cur, SliceV):
+                dflt = SliceV(cur.base, cur.end, cur.end)
+            elif isinstance(cur, IntV):
+                dflt = IntV(0, cur.ty)
+            else:
+                return None
+        self.I.write_loc(st, r.key, r.path, dflt)
+        return [(st, "val", cur)]
+
+    def mem_replace(self, e, st, a):
+        r = a[0]
+        if not isinstance(r, RefV):
+            return None
+        cur = self.I.read_loc(st, r.key, r.path)
+        self.I.write_loc(st, r.key, r.path, a[1])
+        return [(st, "val", cur)]
+
     def it_take_while(self, e, st, a):
         it = self._iter(st, a[0])
         if it is None:
@@ -886,25 +964,31 @@ class Ext:
             out.append((s, "val", TupV([SliceV(sl.base, sl.start, sl.start + m.l), SliceV(sl.base, sl.start + m.l, sl.end)])))
         return out
 
-    def sl_split_first(self, e, st, a):
+    def sl_split_first(self, e, st, a, mutable=False):
         sl = self._slice(st, a[0])
         if not isinstance(sl, SliceV):
             return None
         n = sl.length()
         out = []
         for s in self.I.assume(st, flit(gt(n, 0))):
+            if mutable:
+                out.append((s, "val", some(TupV([MemRefV(sl, IntV(0, "usize")), SliceV(sl.base, sl.start + 1, sl.end)]))))
+                continue
             for s2, v in self.I.index_read(s, sl, IntV(0, "usize"), e):
                 out.append((s2, "val", some(TupV([v, SliceV(sl.base, sl.start + 1, sl.end)]))))
         out += [(s, "val", NONE) for s in self.I.assume(st, flit(eq(n, 0)))]
         return out
 
-    def sl_split_last(self, e, st, a):
+    def sl_split_last(self, e, st, a, mutable=False):
         sl = self._slice(st, a[0])
         if not isinstance(sl, SliceV):
             return None
         n = sl.length()
         out = []
         for s in self.I.assume(st, flit(gt(n, 0))):
+            if mutable:
+                out.append((s, "val", some(TupV([MemRefV(sl, IntV(n - 1, "usize")), SliceV(sl.base, sl.start, sl.end - 1)]))))
+                continue
             for s2, v in self.I.index_read(s, sl, IntV(n - 1, "usize"), e):
                 out.append((s2, "val", some(TupV([v, SliceV(sl.base, sl.start, sl.end - 1)]))))
         out += [(s, "val", NONE) for s in self.I.assume(st, flit(eq(n, 0)))]
